@@ -44,28 +44,46 @@ pub fn snap(b: &Board) -> String {
 /// contents of the three stacks as far as the public API can pop them (on a clone)
 pub fn stacks(b: &Board) -> String {
     let mut out = String::from("stacks");
+    // a stack deeper than any history the harness builds means a pop that does not pop:
+    // reported as such instead of looping for ever
+    const MAX_DEPTH: usize = 5000;
     let mut c = b.clone();
     out.push_str(" ep");
+    let mut n = 0;
     loop {
         match catch_unwind(AssertUnwindSafe(|| c.pop_en_passant_target())) {
             Ok(v) => out.push_str(&format!(" {}", if v.is_empty() { "-".to_string() } else { sqname(idx(v)) })),
             Err(_) => break,
         }
+        n += 1;
+        if n > MAX_DEPTH {
+            return "stacks UNBOUNDED-ep-stack".to_string();
+        }
     }
     let mut c = b.clone();
     out.push_str(" cr");
+    n = 0;
     loop {
         match catch_unwind(AssertUnwindSafe(|| c.pop_castle_rights())) {
             Ok(v) => out.push_str(&format!(" {}", v)),
             Err(_) => break,
         }
+        n += 1;
+        if n > MAX_DEPTH {
+            return "stacks UNBOUNDED-castle-rights-stack".to_string();
+        }
     }
     let mut c = b.clone();
     out.push_str(" hm");
+    n = 0;
     loop {
         match catch_unwind(AssertUnwindSafe(|| c.pop_halfmove_clock())) {
             Ok(v) => out.push_str(&format!(" {}", v)),
             Err(_) => break,
+        }
+        n += 1;
+        if n > MAX_DEPTH {
+            return "stacks UNBOUNDED-halfmove-stack".to_string();
         }
     }
     out
